@@ -13,6 +13,11 @@ Scenario:
               "expr": null | ["port", "p1"] | ["add", "p1", "p2"], "init": 3, "faulty": false}, ...],
    "steps": [["tick", dt_ms] | ["set", port, value] | ["api", port, value]
              | ["fault", port, {"read": K, "write": K, "hb": K, "attr": K}]]}
+  Load-time scenarios ("load_mode": true): the ports' configuration ({"enabled", "expression"[, "value"]}) is put into the
+  persistence layer, a port spec may carry "fault0": {site: K} = faults in force from construction on (sites also "enable":
+  handle_enable raises), and the whole list is loaded by ONE core_ports.load([...], trigger_add=True) -- the start-up path;
+  ["load", [port specs]] loads a further batch in the middle of the scenario.  Observed in addition: port-add events, and
+  per step whether each port is loaded and enabled.  A load that raises is logged (`load_failed`), the scenario goes on.
   K in FAULTS or null.  A "set" (the outside world changes what the driver of a port reads) takes effect at the instant of the
   next tick, immediately before its pass: passes triggered by writes to *other* ports (which exist only in the run with the
   faulty ports) must not sample a source at an instant at which the reference run has no pass.  All dt are multiples of 125 ms, so every virtual time is a dyadic rational and the float arithmetic of
@@ -91,7 +96,8 @@ class Env:
                 super().__init__(port_id)
                 self.c15_spec = spec
                 self.c15_drv = spec.get('init')
-                self.c15_mode = {'read': None, 'write': None, 'hb': None, 'attr': None}
+                self.c15_mode = {'read': None, 'write': None, 'hb': None, 'attr': None, 'enable': None}
+                self.c15_mode.update(spec.get('fault0') or {})
                 self.c15_latency = 0.0        # probes only
                 self.c15_hang = None          # probes only: a future that never completes
                 self.c15_adapted = False
@@ -114,6 +120,10 @@ class Env:
                 if k:
                     raise make_exc('PortError' if k == 'PortReadError' else ('PortTimeout' if k == 'SkipRead' else k))
                 self.c15_drv = value
+
+            async def handle_enable(self):
+                if self.c15_mode['enable']:
+                    raise make_exc(self.c15_mode['enable'])
 
             def heart_beat_second(self):
                 k = self.c15_mode['hb']
@@ -164,6 +174,8 @@ class Env:
             async def handle_event(self, event):
                 if isinstance(event, core_events.ValueChange):
                     env.log(['change', event.get_port().get_id(), canon(event.old_value), canon(event.new_value)])
+                elif isinstance(event, core_events.PortAdd):
+                    env.log(['add', event.get_port().get_id()])
 
         self.handler = RecHandler('c15rec')
 
@@ -267,7 +279,7 @@ class Env:
         st = {}
         for p in self.core_ports.get_all():
             st[p.get_id()] = [canon(p.get_last_read_value()), canon(getattr(p, 'c15_drv', None)),
-                              bool(p in self.main._ports_with_read_error._set)]
+                              bool(p in self.main._ports_with_read_error._set), bool(p.is_loaded()), bool(p.is_enabled())]
         return st
 
     async def bounded(self, coro, limit=STUCK_S):
@@ -286,33 +298,65 @@ class Env:
             return 'exc', t.exception()
         return 'ok', t.result()
 
+    def port_args(self, ps):
+        cls = type('ScriptPort_' + ps['id'], (self.ScriptPort,), {
+            'WRITABLE': bool(ps.get('writable')), 'INTERNAL': bool(ps.get('internal')),
+            'PERSISTED': bool(ps.get('persisted'))})
+        return {'driver': cls, 'port_id': ps['id'], 'spec': ps}
+
+    async def load_batch(self, specs, out, step):
+        """the real core_ports.load() on one batch whose configuration is in the persistence layer"""
+        from qtoggleserver import persist
+        cp = self.core_ports
+        for ps in specs:
+            d = {'id': ps['id'], 'enabled': bool(ps.get('enabled', True))}
+            if ps.get('expr') is not None:
+                d['expression'] = self.expr_text(ps['expr'])
+            if ps.get('value0') is not None:
+                d['value'] = ps['value0']
+            await persist.replace(cp.BasePort.PERSIST_COLLECTION, ps['id'], d)
+        self.log(['load', [ps['id'] for ps in specs]])
+        how, r = await self.bounded(cp.load([self.port_args(ps) for ps in specs], trigger_add=True))
+        if how != 'ok':
+            what = 'stuck' if how == 'stuck' else '%s: %s' % (type(r).__name__, r)
+            self.log(['load_failed', what])
+            out['load_failed'].append({'step': step, 'batch': [ps['id'] for ps in specs], 'error': what})
+
     async def run_async(self, sc, extra=None):
         cp, main = self.core_ports, self.main
         self.reset()
         self.rec = None
-        args = []
-        for ps in sc['ports']:
-            cls = type('ScriptPort_' + ps['id'], (self.ScriptPort,), {
-                'WRITABLE': bool(ps.get('writable')), 'INTERNAL': bool(ps.get('internal')),
-                'PERSISTED': bool(ps.get('persisted'))})
-            args.append({'driver': cls, 'port_id': ps['id'], 'spec': ps})
-        ports = await cp.load(args, trigger_add=False)
-        for p, ps in zip(ports, sc['ports']):
-            if ps.get('enabled', True):
-                await p.enable()
-        for p, ps in zip(ports, sc['ports']):
-            if ps.get('expr') is not None:
-                await p.set_attr('expression', self.expr_text(ps['expr']))
-                if p.get_expression() is None:
-                    raise RuntimeError('expression not set on %s' % ps['id'])
-        # settle the start-up (forced evaluations, first reads); the scenario starts from this state
-        for _ in range(4):
-            await main.update()
-            await self.settle()
-        for p in ports:
-            p._pending_save = False
-        out = {'ok': True, 'unsettled': [], 'stuck': []}
-        self.rec = rec = []
+        from qtoggleserver import persist
+        await persist.remove(cp.BasePort.PERSIST_COLLECTION)
+        out = {'ok': True, 'unsettled': [], 'stuck': [], 'load_failed': []}
+        rec = []
+        if sc.get('load_mode'):
+            # start-up path: configuration comes from the persistence layer, faults may be in force from the start, one batch
+            self.rec = rec
+            await self.load_batch(sc['ports'], out, -1)
+            for _ in range(4):
+                how, _r = await self.bounded(main.update())
+                if how == 'stuck':
+                    out['stuck'].append({'step': -1, 'what': 'a start-up polling pass did not finish'})
+                    break
+                await self.settle()
+        else:
+            ports = await cp.load([self.port_args(ps) for ps in sc['ports']], trigger_add=False)
+            for p, ps in zip(ports, sc['ports']):
+                if ps.get('enabled', True):
+                    await p.enable()
+            for p, ps in zip(ports, sc['ports']):
+                if ps.get('expr') is not None:
+                    await p.set_attr('expression', self.expr_text(ps['expr']))
+                    if p.get_expression() is None:
+                        raise RuntimeError('expression not set on %s' % ps['id'])
+            # settle the start-up (forced evaluations, first reads); the scenario starts from this state
+            for _ in range(4):
+                await main.update()
+                await self.settle()
+            for p in ports:
+                p._pending_save = False
+            self.rec = rec
         out['init'] = self.state()
         out['init_last_sec'] = main._last_time
         out['init_now_ms'] = self.now_ms()
@@ -327,6 +371,8 @@ class Env:
                     await asyncio.sleep(st[1] / 1000.0)
                     self.log(['adv', st[1]])
                     for pid_, v_ in pending_sets:      # source values change at tick instants (see module docstring)
+                        if cp.get(pid_) is None:
+                            continue
                         cp.get(pid_).c15_drv = v_
                         self.log(['set', pid_, v_])
                     pending_sets = []
@@ -338,9 +384,13 @@ class Env:
                                                                  'virtual seconds' % STUCK_S})
                 elif op == 'set':
                     pending_sets.append((st[1], st[2]))
+                elif op == 'load':
+                    self.cur_origin = 'load'
+                    await self.load_batch(st[1], out, si)
                 elif op == 'fault':
                     p = cp.get(st[1])
-                    p.c15_mode.update(st[2])
+                    if p is not None:
+                        p.c15_mode.update(st[2])
                 elif op == 'api':
                     self.cur_origin = 'api'
                     how, r = await self.bounded(self.api_write(st[1], st[2]))
@@ -405,8 +455,16 @@ class Env:
 # ----------------------------------------------------------------------------------------------------------------
 # paired runs: the spec oracle on the implementation
 
+def all_specs(sc):
+    specs = list(sc['ports'])
+    for st in sc['steps']:
+        if st[0] == 'load':
+            specs += st[1]
+    return specs
+
+
 def healthy_ids(sc):
-    return [p['id'] for p in sc['ports'] if not p.get('faulty')]
+    return [p['id'] for p in all_specs(sc) if not p.get('faulty')]
 
 
 def reference_scenario(sc):
@@ -417,9 +475,14 @@ def reference_scenario(sc):
     for st in sc['steps']:
         if st[0] in ('set', 'api', 'fault') and st[1] not in H:
             steps.append(['nop'])      # keep the step indices aligned
+        elif st[0] == 'load':
+            steps.append(['load', [p for p in st[1] if p['id'] in H]])
         else:
             steps.append(st)
-    return {'ports': ports, 'steps': steps}
+    ref = {'ports': ports, 'steps': steps}
+    if sc.get('load_mode'):
+        ref['load_mode'] = True
+    return ref
 
 
 async def _nop(env, st):
@@ -431,7 +494,10 @@ def healthy_view(run, H):
     """observables of the healthy ports, in a form that must be identical with and without the faulty ports"""
     H = set(H)
     v = {'last': [], 'changes': {}, 'writes': {}, 'evalwrites': {}, 'api': [], 'hb_seconds': {}, 'tick_reads': [],
-         'pushes': {}, 'pass_exc': 0}
+         'pushes': {}, 'pass_exc': 0, 'adds': [], 'ports': []}
+    for st in [run['init']] + run['states']:
+        # which healthy ports exist, are loaded and enabled (start-up state first)
+        v['ports'].append({p: ['loaded' if s[3] else 'NOT loaded', 'enabled' if s[4] else 'disabled'] for p, s in st.items() if p in H})
     for st in run['states']:
         v['last'].append({p: s[0] for p, s in st.items() if p in H})
     v['api'] = [a for a in run['api'] if a[1] in H]
@@ -458,6 +524,8 @@ def healthy_view(run, H):
                 cur_reads.append(it[2])
         elif k == 'hb' and it[2] in H:
             v['hb_seconds'].setdefault(it[2], []).append((t + 0) // 1000)
+        elif k == 'add' and it[2] in H:
+            v['adds'].append(it[2])
         elif k == 'change' and it[2] in H:
             v['changes'].setdefault(it[2], []).append([t, it[3], it[4]])
         elif k == 'push' and it[2] in H:
@@ -469,12 +537,16 @@ def healthy_view(run, H):
     return v
 
 
-def diff_views(a, b):
-    """first difference between two healthy views: (observable kind, detail) or None"""
-    for kind in ('last', 'changes', 'writes', 'api', 'evalwrites', 'tick_reads', 'hb_seconds', 'pushes'):
+def diff_views(a, b, pushes=True):
+    """first difference between two healthy views: (observable kind, detail) or None.
+    pushes=False (load-time scenarios): enabling ANY port forces the evaluation of all expressions at the next pass (by
+    design); that next pass may be one triggered by a write to a faulty port, so *when* the forced (and, values being
+    unchanged, idle) evaluation happens is not comparable -- values, events and writes still are."""
+    for kind in ('ports', 'adds', 'last', 'changes', 'writes', 'api', 'evalwrites', 'tick_reads', 'hb_seconds') + (
+            ('pushes',) if pushes else ()):
         if a[kind] != b[kind]:
             detail = {'with_faulty_ports': a[kind], 'without': b[kind]}
-            if kind == 'last':
+            if kind in ('last', 'ports'):
                 for i, (x, y) in enumerate(zip(a[kind], b[kind])):
                     if x != y:
                         detail = {'step': i, 'with_faulty_ports': x, 'without': y}
@@ -551,7 +623,7 @@ def pair(env, sc):
         # every scripted fault is a *raising* fault (in scope); scripted hangs exist only in `probes`
         d = ('pass-stuck', {'with_faulty_ports': fr.get('stuck'), 'without': rr.get('stuck')})
     if d is None:
-        d = diff_views(healthy_view(fr, H), healthy_view(rr, H))
+        d = diff_views(healthy_view(fr, H), healthy_view(rr, H), pushes=not sc.get('load_mode'))
     if d is None:
         # a healthy port (or a pass) still busy after a step, in one run only
         ua = sorted(b for b in fr['unsettled'] if b in H or b == '*')
@@ -620,11 +692,22 @@ def shrink(env, sc, budget=400):
             used_by = any(q.get('expr') and pid in q['expr'][1:] for q in sc['ports'] if q['id'] != pid)
             if used_by:
                 continue
-            c = {'ports': [q for q in sc['ports'] if q['id'] != pid],
-                 'steps': [s for s in sc['steps'] if not (s[0] in ('set', 'api', 'fault') and s[1] == pid)]}
+            c = dict(sc, ports=[q for q in sc['ports'] if q['id'] != pid],
+                     steps=[s for s in sc['steps'] if not (s[0] in ('set', 'api', 'fault') and s[1] == pid)])
             if any(q.get('faulty') for q in c['ports']) and any(not q.get('faulty') for q in c['ports']) and still(c):
                 sc = c
                 changed = True
+        # members of later batches
+        for i, s in enumerate(sc['steps']):
+            if s[0] != 'load':
+                continue
+            for m in list(s[1]):
+                batch = [q for q in sc['steps'][i][1] if q['id'] != m['id']]
+                c = dict(sc, steps=sc['steps'][:i] + [['load', batch]] + [t for t in sc['steps'][i + 1:]
+                                                                          if not (t[0] in ('set', 'api', 'fault') and t[1] == m['id'])])
+                if still(c):
+                    sc = c
+                    changed = True
         # single fault sites
         for i, s in enumerate(sc['steps']):
             if s[0] != 'fault':
@@ -691,6 +774,23 @@ def probes(env):
     sc2 = json.loads(json.dumps(sc))
     sc2['ports'] = [base_ports[1], base_ports[2], base_ports[0]]       # faulty port last in iteration order
     out['attr-getter-in-handle_value_changes(faulty last)'] = summary(sc2)
+
+    # load-time faults: the faulty port sits between two healthy ones in ONE core_ports.load() batch (start-up path)
+    def load_probe(fault0, **extra):
+        f = dict({'id': 'f', 'enabled': True, 'writable': True, 'init': 1, 'faulty': True, 'fault0': fault0}, **extra)
+        sc = {'load_mode': True, 'ports': [
+            {'id': 'h1', 'enabled': True, 'writable': False, 'init': 1}, f,
+            {'id': 'h2', 'enabled': True, 'writable': True, 'init': 1, 'expr': ['port', 'h1']}],
+            'steps': [['set', 'h1', 5], ['tick', 1000], ['tick', 1000]]}
+        r = pair(env, sc)
+        return {'diff': r.get('diff'), 'error': r.get('error'), 'load_failed': r['faulty_run'].get('load_failed')}
+
+    out['load:first-read-raises'] = load_probe({'read': 'OSError'})
+    out['load:first-read-skips'] = load_probe({'read': 'SkipRead'})
+    out['load:handle_enable-raises'] = load_probe({'enable': 'Exception'})
+    out['load:heart-beat-raises'] = load_probe({'hb': 'Exception'})
+    out['load:attribute-getter-raises'] = load_probe({'attr': 'Exception'})
+    out['load:write-of-persisted-value-raises'] = load_probe({'write': 'OSError'}, persisted=True, value0=3)
 
     # slow / hanging driver reads (timing; not part of the value/event observables)
     async def timing(env, latency=None, hang=False, kind='TimeoutError'):
